@@ -906,6 +906,29 @@ func (k *kitchen) Invariant(tx *bbolt.Tx, mm explore.Model) error {
 	if got := drain(k.prof.IterateValidIds(tx, ast.BoolNodeTrue)); strings.Join(got, ",") != strings.Join(profs, ",") {
 		return fmt.Errorf("prof.IterateValidIds = %v, model says %v (entities with extended data)", got, profs)
 	}
+	// ... and repositioned: after Seek(v) the cursor stands on the first id >= v that has child data
+	for _, c := range []struct {
+		store *world.Store
+		name  string
+		want  []string
+	}{{k.mgr, "mgr", mgrs}, {k.prof, "prof", profs}} {
+		for _, target := range append([]string{""}, k.personIds...) {
+			cur, ok := c.store.IterateValidIds(tx, ast.BoolNodeTrue).(ast.SeekableSetCursor)
+			if !ok {
+				return fmt.Errorf("%s.IterateValidIds is not seekable", c.name)
+			}
+			cur.Seek([]byte(target))
+			var rest []string
+			for _, id := range c.want {
+				if id >= target {
+					rest = append(rest, id)
+				}
+			}
+			if got := drain(cur); strings.Join(got, ",") != strings.Join(rest, ",") {
+				return fmt.Errorf("%s.IterateValidIds after Seek(%q) = %v, model says %v", c.name, target, got, rest)
+			}
+		}
+	}
 	for _, id := range k.personIds {
 		p := m.people[id]
 		e, found, err := k.people.FindById(tx, id)
